@@ -8,7 +8,7 @@ callbacks see exactly the invocations they see when run alone).
 """
 import random
 
-from hxsim import canon, formgen, scen, seams
+from hxsim import canon, formgen, globalstate, scen, seams
 from hxsim import values as V
 from hxsim.host import EVENTS, World, nested_value
 from hxsim.sched import Baton, HarnessStuck
@@ -16,12 +16,12 @@ from hxsim.stepclock import SimAbort, StepBudgetExceeded, StepClock
 
 PROPERTY = 'C03'
 STREAMS = {
-    'threads': {'quick': 9000, 'thorough': 300000, 'chunk': 100},
-    'nest': {'quick': 9000, 'thorough': 250000, 'chunk': 150},
+    'threads': {'quick': 7500, 'thorough': 300000, 'chunk': 100},
+    'nest': {'quick': 7500, 'thorough': 250000, 'chunk': 150},
     # every step k of evaluation A: A runs k steps, B runs one complete evaluation, A resumes
-    'sweep': {'quick': 600, 'thorough': 25000, 'chunk': 10, 'selftest_max': 12},
+    'sweep': {'quick': 480, 'thorough': 25000, 'chunk': 10, 'selftest_max': 12},
     # histories of registrations (set_variable / set_function / on / once / off) interleaved over 2-3 parsers
-    'isolation': {'quick': 5000, 'thorough': 200000, 'chunk': 150},
+    'isolation': {'quick': 3500, 'thorough': 200000, 'chunk': 150},
 }
 CLOCK0 = '2024-02-29T13:14:15.161718'
 
@@ -46,7 +46,8 @@ def gen_sweep(rng, i):
     return {'engine': 'sweep', 'slots': slots, 'threads': [{'slots': [0], 'tasks': [[0, forms[0]]]},
                                                             {'slots': [1], 'tasks': [[1, forms[1]]]}],
             'clock': CLOCK0, 'rand': 0.25, 'samefn': same, 'swap': rng.random() < 0.5,
-            'points': 'all' if rng.random() < 0.1 else 'function_body'}
+            'points': rng.choice(['all', 'function_body', 'function_body', 'function_body', 'function_body', 'function_body',
+                                  'function_body', 'function_body', 'function_body', 'function_body', 'overlap2', 'overlap2'])}
 
 
 ISO_VARS = ['va', 'vb', 'Rate']
@@ -340,6 +341,15 @@ def _eval(world, clock, slot, f, elems):
         clock.disarm()
 
 
+def _restore_global(key, value):
+    import sys
+    import warnings
+    if key == 'sys.getrecursionlimit':
+        sys.setrecursionlimit(value)
+    elif key == 'warnings.filters':
+        pass     # (entries cannot be rebuilt from their repr; the chunk's later runs compare before/after anyway)
+
+
 def _set_env(sc):
     seams.CLOCK.set(sc['clock'])
     seams.CLOCK.tick = None
@@ -388,7 +398,9 @@ def execute_threads(sc, stats):
             for j, (s, f) in enumerate(threads[t]['tasks']):
                 got[t][j] = _eval(world, clock, s, f, elems)
         return body
+    g0 = globalstate.snapshot()
     baton.run([make_body(t) for t in range(len(threads))])
+    g1 = globalstate.snapshot()
     if baton.errors:
         raise HarnessStuck('simulated thread failed in the harness: %s' % baton.errors[:2])
     log = baton.compact_log()
@@ -441,6 +453,12 @@ def execute_threads(sc, stats):
                                        'concurrent': logs[k][d] if d < len(logs[k]) else None,
                                        'solo': solo_logs[k][d] if d < len(solo_logs[k]) else None}})
                 break
+    if not vio and g0 != g1:
+        vio.append({'invariant': 'S1_process_state_changed', 'sig': 'S1:' + ','.join(sorted(globalstate.diff(g0, g1))),
+                    'detail': {'changed': globalstate.diff(g0, g1), 'switches': baton.switches, 'schedule_head': log[:12],
+                               'note': 'after all evaluations ended, a process-global interpreter setting differs from before'}})
+        for k_, v_ in g0.items():          # put it back, so that the rest of the chunk is not affected
+            _restore_global(k_, v_)
     if vio and 'schedule' not in sc:
         sc['schedule'] = log   # replay/shrink from the explicit decision list
         sc['sched_origin'] = sc.pop('sched')
@@ -584,6 +602,8 @@ def execute_sweep(sc, stats):
     stats['evals'] += 2
     stats['steps'] += refclock.steps
     vio = []
+    if sc.get('points') == 'overlap2':
+        return _sweep_overlap2(sc, stats, world, tasks, solo, logs, elems, a, b, nsteps)
     if 'ks' in sc:
         ks = list(sc['ks'])          # replay / shrinking: the interposition points, literally
     elif sc.get('points') == 'all':
@@ -599,6 +619,7 @@ def execute_sweep(sc, stats):
     for k in ks:
         baton = Baton(2, schedule=[[a, k], [b, 1 << 40]])
         got = [None, None]
+        g0 = globalstate.snapshot()
 
         def make_body(t):
             def body(clock):
@@ -610,6 +631,13 @@ def execute_sweep(sc, stats):
         stats['evals'] += 2
         stats['steps'] += baton.clocks[0].steps + baton.clocks[1].steps
         stats['fault:single_interposition_point'] += 1
+        g1 = globalstate.snapshot()
+        if got == solo and g0 != g1:
+            vio.append({'invariant': 'S1_process_state_changed', 'sig': 'S1:' + ','.join(sorted(globalstate.diff(g0, g1))),
+                        'detail': {'changed': globalstate.diff(g0, g1), 'interposed_after_step': k, 'formula': _esc(tasks[a][1]),
+                                   'other_formula': _esc(tasks[b][1])}})
+            sc['ks'] = ks[:ks.index(k) + 1]
+            break
         if got != solo:
             t = 0 if got[0] != solo[0] else 1
             vio.append({'invariant': 'T1_solo_outcome', 'sig': 'T1',
@@ -623,6 +651,61 @@ def execute_sweep(sc, stats):
     stats['probe:sweep_points[%s]' % ('<=500' if n <= 500 else ('<=1500' if n <= 1500 else '>1500'))] += 1
     sc['_nt'] = n > 0
     sc['_schedule_observed'] = [n]
+    return vio
+
+
+def _body_points(log):
+    ks = [k for k in range(1, len(log) + 1) if '/formulas/' in log[k - 1] or '/helper/' in log[k - 1]]
+    return sorted(set(ks) | set(k - 1 for k in ks if k > 1))
+
+
+def _sweep_overlap2(sc, stats, world, tasks, solo, logs, elems, a, b, nsteps):
+    """Two pre-emptions: B runs kb steps, A runs ka steps, B finishes, A finishes - for every pair of steps the two
+    evaluations execute in the formula / helper modules.  Critical sections that overlap WITHOUT nesting."""
+    if 'pairs' in sc:
+        pairs = [tuple(x) for x in sc['pairs']]
+    else:
+        ka_s, kb_s = _body_points(logs[a])[:40], _body_points(logs[b])[:40]
+        pairs = [(kb, ka) for kb in kb_s for ka in ka_s]
+        if len(pairs) > 1000:
+            step = len(pairs) // 1000 + 1
+            pairs = pairs[sc.get('_run', 0) % step::step]
+    vio = []
+    for kb, ka in pairs:
+        baton = Baton(2, schedule=[[b, kb], [a, ka], [b, 1 << 40], [a, 1 << 40]])
+        got = [None, None]
+
+        def make_body(t):
+            def body(clock):
+                got[t] = _eval(world, clock, tasks[t][0], tasks[t][1], elems)
+            return body
+        g0 = globalstate.snapshot()
+        baton.run([make_body(0), make_body(1)])
+        g1 = globalstate.snapshot()
+        if baton.errors:
+            raise HarnessStuck('simulated thread failed in the harness: %s' % baton.errors[:2])
+        stats['evals'] += 2
+        stats['steps'] += baton.clocks[0].steps + baton.clocks[1].steps
+        stats['fault:double_preemption_point'] += 1
+        bad = None
+        if got != solo:
+            t = 0 if got[0] != solo[0] else 1
+            bad = {'invariant': 'T1_solo_outcome', 'sig': 'T1',
+                   'detail': {'thread': t, 'formula': _esc(tasks[t][1]), 'other_formula': _esc(tasks[1 - t][1]), 'concurrent': got[t],
+                              'solo': solo[t], 'schedule': [[b, kb], [a, ka], [b, 'end'], [a, 'end']]}}
+        elif g0 != g1:
+            bad = {'invariant': 'S1_process_state_changed', 'sig': 'S1:' + ','.join(sorted(globalstate.diff(g0, g1))),
+                   'detail': {'changed': globalstate.diff(g0, g1), 'formula': _esc(tasks[a][1]), 'other_formula': _esc(tasks[b][1]),
+                              'schedule': [[b, kb], [a, ka], [b, 'end'], [a, 'end']]}}
+        if bad:
+            vio.append(bad)
+            sc['pairs'] = [list(x) for x in pairs[:pairs.index((kb, ka)) + 1]]
+            for k_, v_ in g0.items():
+                _restore_global(k_, v_)
+            break
+    stats['probe:sweep_overlap2'] += 1
+    sc['_nt'] = len(pairs) > 0
+    sc['_schedule_observed'] = [len(pairs)]
     return vio
 
 
@@ -662,6 +745,17 @@ def shrink_candidates(sc):
             for s in scen.shrink_slot(slot):
                 d = dict(sc)
                 d['slots'] = sc['slots'][:si] + [s] + sc['slots'][si + 1:]
+                yield d
+        return
+    if sc.get('engine') == 'sweep' and sc.get('points') == 'overlap2':
+        pairs = sc.get('pairs', [])
+        if len(pairs) > 1:
+            d = dict(sc)
+            d['pairs'] = pairs[-1:]
+            yield d
+            for c in scen.shrink_list(pairs[:-1], 0):
+                d = dict(sc)
+                d['pairs'] = c + pairs[-1:]
                 yield d
         return
     if sc.get('engine') == 'sweep':
@@ -764,7 +858,7 @@ def describe():
                 'references; evaluations = top-level evaluations under the schedule / outer evaluations; distinct = distinct '
                 '(slots, tasks, observed decision list) resp. (slots, outer formula); non-trivial = at least one context switch '
                 'happened inside an evaluation resp. at least one nested evaluation was actually performed',
-        'fault_kinds': ['ctx_switch', 'schedule_random', 'schedule_single', 'schedule_pingpong', 'single_interposition_point',
+        'fault_kinds': ['ctx_switch', 'schedule_random', 'schedule_single', 'schedule_pingpong', 'single_interposition_point', 'double_preemption_point',
                         'nested_other', 'nested_same', 'nested_build', 'nested_depth2', 'cb_raise', 'listener_raise',
                         'isolation_op_var', 'isolation_op_fn', 'isolation_op_on', 'isolation_op_once', 'isolation_op_off',
                         'isolation_op_offcb'],
